@@ -337,11 +337,14 @@ func decodeLen(highThreeBits, lowFiveBits byte, additional []byte) (int, error) 
 	if lowFiveBits < 0x18 {
 		length = uint64(lowFiveBits)
 	}
-	if highThreeBits == mapMajorType {
-		length *= 2
-	}
 	if length > math.MaxInt || length >= MaxArrayDecodeLength {
 		return 0, fmt.Errorf("length exceeds max size: %d", length)
+	}
+	if highThreeBits == mapMajorType {
+		if length >= MaxArrayDecodeLength/2 {
+			return 0, fmt.Errorf("length exceeds max size: %d", length)
+		}
+		length *= 2
 	}
 	return int(length), nil
 }
